@@ -1,0 +1,6 @@
+//go:build !verif
+
+package risc
+
+// VerifTick is a verification hook; without the `verif` build tag it does nothing.
+func (ctx *Context) VerifTick() {}
